@@ -7,10 +7,13 @@ from ..model.refparse import NONE
 BINOPS = ['or', 'and', '==', '!=', '>', '<', '>=', '<=', 'in', 'not in', '+', '-', '*', '/', '**']
 SHORTOPS = ['+=', '-=', '*=', '/=']
 SLICE_FORMS = [':', 'e:e', 'e:', ':e', 'e::', ':e:', '::e']   # the eighth published shape is the plain index
+# shapes the published grammar does NOT have (Python has them): generated too, the reference decides
+UNPUBLISHED_SLICE_FORMS = ['::', 'e:e:e', 'e::e', ':e:e', 'e:e:', ':::']
 LEAVES = [('leaf', 'a', ('name', 'a')), ('leaf', '1', ('num', 1, 0)),
           ('leaf', 'b', ('name', 'b')), ('leaf', '"s"', ('str', 's')),
           ('leaf', 'True', ('const', True)), ('leaf', '2.50', ('num', 250, -2)),
-          ('leaf', 'None', NONE), ('leaf', "'t'", ('str', 't'))]
+          ('leaf', 'None', NONE), ('leaf', "'t'", ('str', 't')),
+          ('leaf', '"u\\nv"', ('str', 'u\nv')), ('leaf', '%n m%', ('name', '%n m%'))]
 
 
 def constructors(compact=False):
@@ -28,7 +31,7 @@ def constructors(compact=False):
     for k in (1, 2):
         cs.append((f'pipe{k}', k + 1, lambda ch: ('pipe', 'h', ch[0], list(ch[1:]))))
     cs.append(('idx', 2, lambda ch: ('idx', ch[0], ch[1])))
-    for form in SLICE_FORMS:
+    for form in SLICE_FORMS + UNPUBLISHED_SLICE_FORMS:
         k = form.count('e')
         cs.append(('slice ' + form, k + 1, lambda ch, form=form: ('slice', ch[0], form, list(ch[1:]))))
     for k in (0, 1, 2):
@@ -150,6 +153,8 @@ def to_neutral(t):
     if k == 'slice':
         es = [to_neutral(e) for e in t[3]]
         form = t[2]
+        if form in UNPUBLISHED_SLICE_FORMS:
+            return ('ungrammatical', form)
         if form == ':':
             sl = ('slice', NONE, NONE, NONE)
         elif form == 'e:e':
